@@ -432,7 +432,20 @@ def _payload_special(plot, l, lo, hi):
     return arr
 
 
-PAYLOADS = {"coded": _payload_coded, "random": _payload_random, "special": _payload_special}
+def _payload_sparse(plot, l, lo, hi):
+    """random data with a single non-finite cell in one box of one (preferably finer) level"""
+    arr = _payload_random(plot, l, lo, hi)
+    seed = int(plot.payload.get("seed", 0))
+    lv = plot.nlev - 1 - (seed % 2 if plot.nlev > 1 else 0) if seed % 5 else 0
+    boxes = plot.levels[lv]["boxes"]
+    blo = boxes[(seed // 7) % len(boxes)][0]
+    if l == lv and list(lo) == list(blo):
+        flat = arr.reshape(-1)
+        flat[(seed // 3) % flat.size] = SPECIALS[[0, 0, 3, 4, 0][seed % 5]]
+    return arr
+
+
+PAYLOADS = {"coded": _payload_coded, "random": _payload_random, "special": _payload_special, "sparse": _payload_sparse}
 
 
 # --------------------------------------------------------------------------- writer
